@@ -482,6 +482,10 @@ pub async fn catch_up_sub(
                         "catching up too slowly, gave up after buffering {MAX_EVENTS_BUFFER_SIZE} events"
                     ));
                 }
+                #[cfg(feature = "verif")]
+                if let QueryEventMeta::Change(change_id) = meta {
+                    klukai_types::verif::emit("catchup.enqueued", &change_id.0.to_string());
+                }
             }
             Ok(sub_rx)
         }
